@@ -32,7 +32,16 @@ type Variant07 struct {
 	// same host:port, different custom parameter. Non-plain shapes use the in-memory
 	// ClientHandshake binding (each name is wired to its own real server).
 	AddrShape string `json:"addrShape,omitempty"`
-	API       string `json:"api"` // "handshake": Authenticator.ClientHandshake over an in-memory connection; "connect": client.ConnectAndAuthenticateWithConfig over TCP loopback
+	// Break: how BreakNext's broken exchange is realised. "" / "close": the server
+	// closes after the client's first message; "stall": the server reads it and never
+	// answers, the client's context deadline (80 ms) ends the exchange.
+	Break string `json:"break,omitempty"`
+	// Origin of the cached sessions. "": negotiated, as stored by storeClientSession;
+	// "inherited": the same entry marked SetInherited(true) (what sessions imported
+	// from the parent daemon / claim and file-transfer imports carry) - dropping,
+	// invalidating and expiring must work for it just the same.
+	Origin string `json:"origin,omitempty"`
+	API    string `json:"api"` // "handshake": Authenticator.ClientHandshake over an in-memory connection; "connect": client.ConnectAndAuthenticateWithConfig over TCP loopback
 }
 
 type Stats07 struct {
@@ -69,6 +78,7 @@ type World07 struct {
 	tcp      bool
 	tcpCh    chan *ConnLog
 	accepted int64 // connections accepted so far (order of acceptance)
+	brk      bool  // the next connection is to break (model's brk)
 }
 
 func swap(x, a, b string, on bool) string {
@@ -102,7 +112,7 @@ func shapedAddr(shape string, k int) string {
 }
 
 func NewWorld07(v Variant07) (*World07, error) {
-	if v.AddrShape != "" && v.AddrShape != "plain" {
+	if (v.AddrShape != "" && v.AddrShape != "plain") || v.Break == "stall" {
 		v.API = "handshake"
 	}
 	w := &World07{v: v, srv: map[string]*Server{}, cc: security.NewSessionCache(), sess: map[int]*est07{}, tcp: v.API == "connect"}
@@ -119,6 +129,7 @@ func NewWorld07(v Variant07) (*World07, error) {
 			addr = ln.Addr().String()
 		}
 		s := NewServer(addr)
+		s.Stall = v.Break == "stall"
 		w.srv[name] = s
 		if w.tcp {
 			ln := w.lns[k]
@@ -150,6 +161,18 @@ func (w *World07) Close() {
 		_ = ln.Close()
 	}
 	w.wg.Wait()
+}
+
+// markOrigin gives every cached session the origin the variant asks for.
+func (w *World07) markOrigin() {
+	if w.v.Origin != "inherited" {
+		return
+	}
+	for _, ent := range w.cc.Snapshot() {
+		if !ent.IsInherited() {
+			ent.SetInherited(true)
+		}
+	}
 }
 
 func (w *World07) modelSid(id string) int {
@@ -214,7 +237,11 @@ func (w *World07) handshake(api, tag, addr, cmd string) hsObs {
 		return o
 	}
 	var cr ClientResult
-	log := Exchange(s, ClientAddrSame, nil, RealClient(cfg, s.Addr, false, &cr))
+	deadline := time.Duration(0)
+	if w.brk && w.v.Break == "stall" {
+		deadline = 80 * time.Millisecond
+	}
+	log := Exchange(s, ClientAddrSame, nil, RealClientDeadline(cfg, s.Addr, false, deadline, &cr))
 	w.St.Connections++
 	return hsObs{logs: []*ConnLog{log}, err: cr.Err, neg: cr.Neg, wasResumed: cr.WasResumed}
 }
@@ -226,6 +253,12 @@ func (w *World07) sig(st *Step, inv, obs string, ridden *est07, tag, addr, cmd s
 	}
 	if w.v.AddrShape != "" && w.v.AddrShape != "plain" {
 		m["addrShape"] = w.v.AddrShape
+	}
+	if w.v.Break == "stall" {
+		m["break"] = "stall"
+	}
+	if w.v.Origin != "" {
+		m["origin"] = w.v.Origin
 	}
 	if ridden == nil {
 		m["rel"] = "unknown-session"
@@ -322,6 +355,7 @@ func Run07(sc *Scenario, v Variant07) (*Diff, *Stats07) {
 		case "Restart":
 			w.srv[w.addrOf(st.Addr)].Restart()
 		case "BreakNext":
+			w.brk = true
 			for _, s := range w.srv {
 				s.BreakNext()
 			}
@@ -330,7 +364,9 @@ func Run07(sc *Scenario, v Variant07) (*Diff, *Stats07) {
 			done := false
 			for _, ent := range w.cc.Snapshot() {
 				if ent.ID() == s.id {
-					w.cc.Store(security.NewSessionEntry(ent.ID(), ent.Addr(), ent.KeyInfo(), ent.Policy(), time.Now().Add(-time.Hour), ent.Lease(), ent.Tag()))
+					ne := security.NewSessionEntry(ent.ID(), ent.Addr(), ent.KeyInfo(), ent.Policy(), time.Now().Add(-time.Hour), ent.Lease(), ent.Tag())
+					ne.SetInherited(ent.IsInherited())
+					w.cc.Store(ne)
 					done = true
 				}
 			}
@@ -349,6 +385,8 @@ func Run07(sc *Scenario, v Variant07) (*Diff, *Stats07) {
 		}
 		// BreakNext concerns one connection only: clear the flag on the server that was not contacted
 		if st.Act == "Handshake" {
+			w.brk = false
+			w.markOrigin()
 			for _, s := range w.srv {
 				s.mu.Lock()
 				s.breakNext = false
